@@ -93,7 +93,11 @@ theorem sim_tryFinally {P : α → Prop} {m : M (St V) α} {ma : M (ATab V) α}
     | mk r2 st2 =>
       rw [hf] at i2
       cases r2 with
-      | error e => exact ⟨i2, rfl, fun x hx => by cases hx⟩
+      | error e =>
+        refine ⟨i2, rfl, fun x hx => ?_⟩
+        cases r with
+        | ok y => cases hx
+        | error e' => cases e' <;> cases hx
       | ok u => exact ⟨i2, rfl, fun x hx => p1 x hx⟩
 
 theorem sim_catchIndex {P : α → Prop} {m : M (St V) α} {ma : M (ATab V) α} (d : α)
